@@ -11,7 +11,7 @@ CLAIMED = {
             "The model is written from pkg/resource doc comments and the property text (DESIGN.md appendix C); where several preconditions fail at once any of their codes is accepted; nested update-mask paths through oneof members and overlapping mask paths are left to C05/C06.",
             "DESIGN.md §4 C01, appendix C"),
     "C02": ("recorded-history linearizability checking (porcupine, per-id partitions, logical-clock call/return events) over forced window interleavings (build-tag hooks + parking) and stress with pseudo-random yields; independent conservation checkers",
-            "Runtime monitoring: concurrent Set/Add/Update/Delete/Get histories with uniquely tagged values are recorded at the client boundary and checked offline against the sequential model of C01 (Aborted/Unavailable are always-legal no-ops, precondition failures legal only in a justifying state). Every (victim op, window, interfering op sequence, pre-state) combination is forced deterministically by parking the victim inside the window, depth 2 adds a second parked victim; stress adds random 2-4 writer histories. Conservation (increments, generated ids, Adds per id) is checked independently of porcupine.",
+            "Runtime monitoring: concurrent Set/Add/Update/Delete/Get histories with uniquely tagged values are recorded at the client boundary and checked offline against the sequential model of C01 (Aborted/Unavailable are always-legal no-ops, precondition failures legal only in a justifying state). Every (victim op, window, interfering op sequence, pre-state) combination is forced deterministically by parking the victim inside the window, depth 2 adds a second parked victim; stress adds random 2-4 writer histories. Conservation (increments, generated ids, Adds per id, and every successful call taking effect as its own call: per-call id callbacks and interceptor stamps under concurrent Adds) is checked independently of porcupine.",
             "Windows are the hook points between optimistic read, change, lock and save; more than 4 writers and windows inside user callbacks are not explored; a porcupine timeout is inconclusive.",
             "DESIGN.md §4 C02"),
     "C03": ("offline checkers over recorded event logs (reference fold vs Get/List at quiescent points; per-subscriber delivery order vs commit order tapped under the write lock) over forced subscribe/publish windows (hooks + parking) and stress",
@@ -55,7 +55,7 @@ CLAIMED = {
             "Unary response headers/trailers and fallback-vs-factory precedence are observed, not judged; regeneration compares go/printer forms (import grouping is a note).",
             "DESIGN.md §4 C12"),
     "C13": ("differential execution: the same lock-step call script through wrap.ServerToClient and through a real gRPC server on bufconn, client-side transcripts compared; quiescence-based hang/leak oracle on the wrapped side",
-            "Runtime monitoring: an exhaustive grid (0-2, thorough 0-3 messages per direction) and random scripts for unary, unary-as-stream, server-, client- and bidi-streaming calls with SetHeader/SendHeader/SetTrailer at each position, error codes at each position, client half-close/cancel/deadline at each position and pre-cancelled contexts are executed on both transports; response messages and order, terminal outcome, user header and trailer keys are compared; messages mutated on one side must not show on the other; unknown methods and mismatched shapes; after every wrapped call no pkg/wrap goroutine may remain at the quiescent point.",
+            "Runtime monitoring: an exhaustive grid (0-2, thorough 0-3 messages per direction) and random scripts for unary, unary-as-stream, server-, client- and bidi-streaming calls with SetHeader/SendHeader/SetTrailer at each position, error codes at each position, client half-close/cancel/deadline at each position and pre-cancelled contexts are executed on both transports; response messages and order, terminal outcome, user header and trailer keys are compared; messages mutated on one side must not show on the other; unknown methods and mismatched shapes; request metadata for six kinds of client context, response metadata with reused call-option targets and with a context taken from an enclosing handler, receivers of another message type; after every wrapped call no pkg/wrap goroutine may remain at the quiescent point (also when the handler left a reader goroutine of its own behind).",
             "Scripts are lock-step (every send meets a ready receiver); cancellation and deadline are compared as classes; harness-triggered deadline contexts; server-side observations after the client left are counted, not judged.",
             "DESIGN.md §4 C13"),
     "C14": ("online relations monitor through the full wrapper-router-wrapper stack, triples discovered from service descriptors, servers discovered from the source tree; streams judged at quiescent points; crash isolation per step",
@@ -63,7 +63,7 @@ CLAIMED = {
             "Servers without an Update RPC are out of domain; in the generated histories lightpb.MemoryDevice runs only with zero tween duration (its ramp writer is driven by separate ramp-then-plain-Update cases whose verdict waits for the ramp goroutine to exit) and hail without wall-clock GC; a server type found in the tree but missing from the table makes the run inconclusive.",
             "DESIGN.md §4 C14"),
     "C15": ("online oracle over page walks: concatenation of the pages followed by next_page_token vs the model's full listing, plus hostile inputs under recover / child-process isolation",
-            "Runtime monitoring: for each of the seven paged List RPCs, collections of sizes 0-60 and the boundary sizes with random ids (prefixes of each other included) are walked with every page size of the property's list (mixed sizes too), directly and through the wrapped stack; every walk must return each item exactly once in listing order, pages no longer than the effective size, total_size right and a finite chain. Negative sizes and corrupted tokens (truncated, bit-flipped, non-base64, foreign, out-of-range numeric) must be answered with an error status, never a panic or an endless chain.",
+            "Runtime monitoring: for each of the seven paged List RPCs, collections of sizes 0-60 and the boundary sizes with random ids (prefixes of each other included) are walked with every page size of the property's list (mixed sizes too), directly and through the wrapped stack; every walk must return each item exactly once in listing order, pages no longer than the effective size, total_size right and a finite chain. Negative sizes and corrupted tokens (truncated, bit-flipped, non-base64, foreign, out-of-range numeric) must be answered with an error status, never a panic or an endless chain. Several clients paging at the same time each get their own listing; a hail model with its garbage collection armed is not changed by listing it.",
             "Collection contents are held fixed while paging; a token that decodes may be honoured; read masks are an extra dimension (keys with suffix mask-without-key).",
             "DESIGN.md §4 C15"),
     "C16": ("reference-model monitor (independent equality / big-number tolerance oracle) over mutation pairs, exhaustive logic tables, and an online stream checker at quiescent points",
